@@ -122,6 +122,14 @@ func genExpr(r *rand.Rand, depth int, boolean bool) *gExpr {
 
 var lineCount int
 
+// clauseLen: a clause of an if-chain has one or two statements, and now and then none at all (an empty clause is still a clause)
+func clauseLen(r *rand.Rand) int {
+	if r.Intn(5) == 0 {
+		return 0
+	}
+	return 1 + r.Intn(2)
+}
+
 func genBody(r *rand.Rand, depth, n int, titles []string) []gStmt {
 	var out []gStmt
 	for i := 0; i < n; i++ {
@@ -149,12 +157,12 @@ func genBody(r *rand.Rand, depth, n int, titles []string) []gStmt {
 			out = append(out, gStmt{kind: "line", text: fmt.Sprintf("After group %d", lineCount)})
 		case k < 6 && depth > 0:
 			g := gStmt{kind: "if"}
-			g.clauses = append(g.clauses, gClause{cond: genExpr(r, 2, true), body: genBody(r, depth-1, 1+r.Intn(2), titles)})
+			g.clauses = append(g.clauses, gClause{cond: genExpr(r, 2, true), body: genBody(r, depth-1, clauseLen(r), titles)})
 			if r.Intn(2) == 0 {
-				g.clauses = append(g.clauses, gClause{cond: genExpr(r, 1, true), body: genBody(r, depth-1, 1+r.Intn(2), titles)})
+				g.clauses = append(g.clauses, gClause{cond: genExpr(r, 1, true), body: genBody(r, depth-1, clauseLen(r), titles)})
 			}
 			if r.Intn(2) == 0 {
-				g.clauses = append(g.clauses, gClause{body: genBody(r, depth-1, 1+r.Intn(2), titles)})
+				g.clauses = append(g.clauses, gClause{body: genBody(r, depth-1, clauseLen(r), titles)})
 			}
 			out = append(out, g)
 		case k < 7:
